@@ -129,6 +129,32 @@ def eval_doc(args):
     return dict(doc=doc, ver=ver, problems=problems, reported=reported)
 
 
+SCHEMA5 = f'''<xs:schema {XS}><xs:element name="catalog"><xs:complexType><xs:sequence>
+ <xs:element name="item" maxOccurs="unbounded"><xs:complexType><xs:attribute name="id" type="xs:string" use="required"/></xs:complexType></xs:element>
+ <xs:element name="ref" minOccurs="0" maxOccurs="unbounded"><xs:complexType><xs:attribute name="to" type="xs:string" use="required"/></xs:complexType></xs:element>
+</xs:sequence></xs:complexType>
+ <xs:key name="itemKey"><xs:selector xpath="item"/><xs:field xpath="@id"/></xs:key>
+ <xs:keyref name="itemRef" refer="itemKey"><xs:selector xpath="ref"/><xs:field xpath="@to"/></xs:keyref></xs:element></xs:schema>'''
+
+
+def eval_leaf_chunks(args):
+    """identity constraints of the root over long runs of CHILDLESS chunks (the selection of the constraint is refreshed as the stream goes on): a dangling reference or a
+    duplicated key behind the first read block of the parser (16 KiB) is reported as for the loaded document"""
+    ver, fault = args
+    import xmlschema
+    s = _S.get((ver, 5)) or _S.setdefault((ver, 5), _cls(ver)(SCHEMA5))
+    items = [f'<item id="k{i}"/>' for i in range(400)]; refs = [f'<ref to="k{i % 400}"/>' for i in range(900)]
+    if fault == 'dangling-late': refs[-3] = '<ref to="missing"/>'
+    elif fault == 'dangling-early': refs[2] = '<ref to="missing"/>'
+    elif fault == 'duplicate-late': items[-2] = '<item id="k7"/>'
+    doc = '<catalog>' + ''.join(items) + ''.join(refs) + '</catalog>'
+    e0 = [(e.reason, e.path) for e in s.iter_errors(doc)]; bad = []
+    for thin in (True, False):
+        e1 = [(e.reason, e.path) for e in s.iter_errors(xmlschema.XMLResource(doc, lazy=True, thin_lazy=thin))]
+        if [r for r, _ in e0] != [r for r, _ in e1]: bad.append(f'thin_lazy={thin}: lazy errors {[r[:50] for r, _ in e1][:2]}, loaded {[r[:50] for r, _ in e0][:2]}')
+    return dict(ver=ver, fault=fault, bad=bad)
+
+
 def run(tier, seed, open_findings):
     rng = random.Random(seed); n = 2400 if tier == 'thorough' else 120
     docs = []
@@ -174,10 +200,15 @@ def run(tier, seed, open_findings):
                 if fid in open_findings: known[fid] = known.get(fid, 0) + 1
                 else: fails.append(dict(case=dict(doc=r['doc'], ver=r['ver']), observed=fid, required='lazy = eager'))
     rep = sum(1 for r in res if any(not x.startswith('KNOWN') for x in r['reported']))
-    return [result('C06.lazy_equals_eager', f'{len(docs)} generated documents x 2 classes x (errors thin/non-thin, data, iteration stream)', len(jobs) * 4, fails, known=known,
+    lres = pmap(eval_leaf_chunks, [(ver, f) for ver in ('1.0', '1.1') for f in ('none', 'dangling-late', 'dangling-early', 'duplicate-late')], chunk=1)
+    leaf = result('C06.identity_constraints_over_leaf_chunks', '2 classes x 4 documents of 1 300 childless chunks (a key and a key reference of the root; valid, a dangling reference near the end / near the start, a duplicated key near the end) x thin / non-thin',
+                  len(lres) * 2, [dict(case=dict(leaf_chunks=True, ver=r['ver'], fault=r['fault']), observed=r['bad'], required='the errors of the loaded document') for r in lres if r['bad']], exhaustive=True)
+    return [leaf, result('C06.lazy_equals_eager', f'{len(docs)} generated documents x 2 classes x (errors thin/non-thin, data, iteration stream)', len(jobs) * 4, fails, known=known,
                    samples=[dict(doc=docs[1][:200])], reported={'depth-2 differences (reported only)': rep}, distinct=len(set(docs)) * 2)]
 
 
 def replay(check_name, case):
+    if case.get('leaf_chunks'):
+        r = eval_leaf_chunks((case['ver'], case['fault'])); return dict(ok=not r['bad'], observed=r['bad'], required='the errors of the loaded document')
     r = eval_doc((case['ver'], case['doc'], case.get('template', 1)))
     return dict(ok=not r['problems'] and not any(x.startswith('KNOWN') for x in r['reported']), observed=r['problems'] or r['reported'], required='lazy = eager')
